@@ -833,16 +833,225 @@ func utf16Str(u []uint16) []byte {
 	return b
 }
 
+// ---------- payload representations ----------
+// otto's Value keeps the Go payload it was built from (int, int8..int64,
+// uint8..uint64, float32, float64; int32/uint32 from the bitwise operators,
+// lengths, parseInt ...).  Every function must give the 15.8.2 answer for the
+// NUMBER, whatever the payload: each boundary is passed in each representation.
+type parg struct {
+	js   string      // in-script expression, or "" when injected through vm.Set
+	gov  interface{} // Go value injected through vm.Set / vm.Call
+	desc string
+	val  float64 // the Number it denotes
+}
+
+func goArgs() []parg {
+	var out []parg
+	add := func(v interface{}, f float64, d string) { out = append(out, parg{"", v, d, f}) }
+	for _, v := range []int8{math.MinInt8, math.MaxInt8, -1, 0, 1} {
+		add(v, float64(v), fmt.Sprintf("int8(%d)", v))
+	}
+	for _, v := range []int16{math.MinInt16, math.MaxInt16, -1, 0} {
+		add(v, float64(v), fmt.Sprintf("int16(%d)", v))
+	}
+	for _, v := range []int32{math.MinInt32, math.MinInt32 + 1, math.MaxInt32, -1, 0, 1, 2, -3} {
+		add(v, float64(v), fmt.Sprintf("int32(%d)", v))
+	}
+	for _, v := range []int64{math.MinInt64, math.MinInt64 + 1, math.MaxInt64, math.MinInt32, math.MaxInt32 + 1, -1, 0, 1, 1 << 53, 1<<53 + 1, -(1<<52 + 1)} {
+		add(v, float64(v), fmt.Sprintf("int64(%d)", v))
+	}
+	for _, v := range []int{math.MinInt64, math.MaxInt64, math.MinInt32, -1, 0, 3} {
+		add(v, float64(v), fmt.Sprintf("int(%d)", v))
+	}
+	for _, v := range []uint8{0, 1, math.MaxUint8} {
+		add(v, float64(v), fmt.Sprintf("uint8(%d)", v))
+	}
+	for _, v := range []uint16{0, math.MaxUint16} {
+		add(v, float64(v), fmt.Sprintf("uint16(%d)", v))
+	}
+	for _, v := range []uint32{0, 1, math.MaxInt32, math.MaxInt32 + 1, math.MaxUint32} {
+		add(v, float64(v), fmt.Sprintf("uint32(%d)", v))
+	}
+	for _, v := range []uint64{0, 1, math.MaxInt64, math.MaxInt64 + 1, math.MaxUint64, 1<<53 + 1} {
+		add(v, float64(v), fmt.Sprintf("uint64(%d)", v))
+	}
+	for _, v := range []uint{0, math.MaxUint64, math.MaxUint32} {
+		add(v, float64(v), fmt.Sprintf("uint(%d)", v))
+	}
+	for _, v := range []float32{0, float32(math.Copysign(0, -1)), 1, -1, 0.5, -0.5, 2.5, -2.5, math.MaxFloat32, -math.MaxFloat32, math.SmallestNonzeroFloat32, float32(math.Inf(1)), float32(math.Inf(-1)), float32(math.NaN()), 0.1, 16777217} {
+		add(v, float64(v), fmt.Sprintf("float32(%v)", v))
+	}
+	for _, v := range []float64{math.MinInt32, math.MaxInt32, -0.5, math.Copysign(0, -1)} {
+		add(v, v, fmt.Sprintf("float64(%v)", v))
+	}
+	return out
+}
+
+func scriptArgs() []parg {
+	mk := func(js string, v float64) parg { return parg{js, nil, "", v} }
+	return []parg{
+		mk("(1<<31)", math.MinInt32), mk("(-2147483648|0)", math.MinInt32), mk("(~2147483647)", math.MinInt32), mk("(2147483648|0)", math.MinInt32),
+		mk("(-2147483647|0)", math.MinInt32+1), mk("(2147483647|0)", math.MaxInt32), mk("(~-2147483648)", math.MaxInt32), mk("(1<<30)", 1<<30),
+		mk("(-1|0)", -1), mk("(~0)", -1), mk("(0|0)", 0), mk("(~-1)", 0), mk("(1|0)", 1), mk("(5&3)", 1), mk("(5^-1)", -6), mk("(-5>>1)", -3), mk("(-1>>0)", -1),
+		mk("(2.5|0)", 2), mk("(-2.5|0)", -2), mk("(-0.5|0)", 0),
+		mk("(-1>>>0)", math.MaxUint32), mk("(-2147483648>>>0)", 2147483648), mk("(2147483647>>>0)", math.MaxInt32), mk("(0>>>0)", 0), mk("(1>>>0)", 1), mk("(-1>>>1)", math.MaxInt32), mk("(-1>>>31)", 1),
+		mk("\"\".length", 0), mk("\"a\".length", 1), mk("\"abc\".length", 3), mk("[].length", 0), mk("[1,2,3].length", 3), mk("[,,].length", 2),
+		mk("(function(){return arguments.length})(1,2)", 2), mk("(function(a,b,c){}).length", 3),
+		mk("parseInt(\"-2147483648\")", math.MinInt32), mk("parseInt(\"2147483647\")", math.MaxInt32), mk("parseInt(\"-1\")", -1), mk("parseInt(\"0\")", 0),
+		mk("parseInt(\"9007199254740993\")", 9007199254740992), mk("parseInt(\"-9223372036854775807\")", math.MinInt64), mk("parseInt(\"9223372036854775807\")", math.MaxInt64), // inside int64: beyond it parseInt's own accuracy is C06's subject
+		mk("-2147483648", math.MinInt32), mk("2147483648", 2147483648), mk("0x7fffffff", math.MaxInt32), mk("0x80000000", 2147483648), mk("0xffffffff", math.MaxUint32),
+		mk("9223372036854775807", math.MaxInt64), mk("-9223372036854775808", math.MinInt64),
+		mk("\"abc\".charCodeAt(1)", 98), mk("\"abc\".indexOf(\"z\")", -1), mk("[5].indexOf(5)", 0), mk("new Date(7).getTime()", 7), mk("Number(true)", 1), mk("(+\"3\")", 3),
+	}
+}
+
+// Math.<fn>(payload arguments...): the call runs in script; Go values are bound
+// to globals __p<i> first (viaCall: passed through Otto.Call instead)
+func (g *gen) payloadCase(fn int, args []parg, viaCall bool) {
+	js := make([]string, len(args))
+	cq := make([]string, len(args))
+	var pre []string
+	allGo := len(args) > 0
+	for i, a := range args {
+		cq[i] = "(JNum " + Cdouble(a.val) + ")"
+		if a.gov != nil {
+			js[i] = fmt.Sprintf("__p%d", i)
+			pre = append(pre, fmt.Sprintf("__p%d := %s", i, a.desc))
+		} else {
+			js[i] = a.js
+			allGo = false
+		}
+	}
+	src := "Math." + fnNames[fn] + "(" + strings.Join(js, ", ") + ")"
+	var o Outcome
+	how := "vm.Set"
+	if viaCall && allGo {
+		how = "vm.Call"
+		vals := make([]interface{}, len(args))
+		for i, a := range args {
+			vals[i] = a.gov
+		}
+		o = Guard(func() (otto.Value, error) { return g.vm.Call("Math."+fnNames[fn], nil, vals...) })
+	} else {
+		for i, a := range args {
+			if a.gov != nil {
+				if err := g.vm.Set(fmt.Sprintf("__p%d", i), a.gov); err != nil {
+					panic(err)
+				}
+			}
+		}
+		o = RunJS(g.vm, src)
+	}
+	bits, txt := "(-9)", ""
+	switch {
+	case o.Panic != nil:
+		txt = fmt.Sprintf("!panic %v", o.Panic)
+	case o.Err != nil:
+		bits, txt = fmt.Sprintf("(-%d)", 100+ErrClass(o)), "!err "+o.Err.Error()
+	case !o.Val.IsNumber():
+		bits, txt = "(-8)", "!notnumber "+o.Val.String()
+	default:
+		f, _ := o.Val.ToFloat()
+		bits, txt = Cdouble(f), fmt.Sprintf("%s [0x%016X]", JSNum(f), Dbits(f))
+	}
+	line := "payload " + src
+	if len(pre) > 0 {
+		line += " with " + strings.Join(pre, ", ") + " (" + how + ")"
+	}
+	g.env.Add(fmt.Sprintf("CMath %d %s %s", fn, Clist(cq), bits), line+" -> "+txt, "payload:"+fnNames[fn], true)
+}
+
+var allUnary = []int{0, 1, 2, 3, 5, 6, 7, 8, 9, 13, 14, 15, 16, 20, 21, 22, 23, 24, 25, 26, 27, 28, 29, 30, 31}
+
+// every function x every boundary x every representation, on every run
+func (g *gen) payloadSweeps() {
+	goA, scA := goArgs(), scriptArgs()
+	all := append(append([]parg{}, goA...), scA...)
+	for _, fn := range allUnary {
+		for _, a := range all {
+			g.payloadCase(fn, []parg{a}, false)
+		}
+	}
+	// the exactly specified functions also through Otto.Call
+	for _, fn := range []int{0, 5, 8, 13, 31, 15} {
+		for _, a := range goA {
+			g.payloadCase(fn, []parg{a}, true)
+		}
+	}
+	two := parg{"2", nil, "", 2}
+	nzero := parg{"(-0)", nil, "", math.Copysign(0, -1)}
+	for _, a := range all {
+		for _, fn := range []int{10, 11} {
+			g.payloadCase(fn, []parg{a}, false)
+			g.payloadCase(fn, []parg{a, nzero}, false)
+			g.payloadCase(fn, []parg{nzero, a}, false)
+			g.payloadCase(fn, []parg{two, a, a}, false)
+		}
+		g.payloadCase(12, []parg{a, two}, false)
+		g.payloadCase(12, []parg{two, a}, false)
+		g.payloadCase(12, []parg{a, a}, false)
+		g.payloadCase(4, []parg{a, two}, false)
+		g.payloadCase(4, []parg{nzero, a}, false)
+		g.payloadCase(4, []parg{a, a}, false)
+	}
+	for _, a := range goA {
+		g.payloadCase(10, []parg{a, a}, true)
+		g.payloadCase(11, []parg{a, a}, true)
+		g.payloadCase(12, []parg{a, a}, true)
+		g.payloadCase(4, []parg{a, a}, true)
+	}
+}
+
+// a random int32 / uint32 / Go-typed payload for the random stream
+func (g *gen) randPayload() parg {
+	r := g.r
+	switch r.Intn(6) {
+	case 0:
+		v := int32(r.Uint32())
+		if r.Intn(3) == 0 {
+			v = Pick(r, []int32{math.MinInt32, math.MinInt32 + 1, math.MaxInt32, -1, 0, 1})
+		}
+		return parg{fmt.Sprintf("(%d|0)", v), nil, "", float64(v)}
+	case 1:
+		v := r.Uint32()
+		return parg{fmt.Sprintf("(%d>>>0)", v), nil, "", float64(v)}
+	case 2:
+		v := int32(r.Uint32())
+		return parg{"", v, fmt.Sprintf("int32(%d)", v), float64(v)}
+	case 3:
+		v := int64(r.Uint64())
+		return parg{"", v, fmt.Sprintf("int64(%d)", v), float64(v)}
+	case 4:
+		v := r.Uint64()
+		return parg{"", v, fmt.Sprintf("uint64(%d)", v), float64(v)}
+	default:
+		v := math.Float32frombits(r.Uint32())
+		return parg{"", v, fmt.Sprintf("float32(%v)", v), float64(v)}
+	}
+}
+
 func runC13(env *Env) {
 	env.Import = "Otto.C13.Corr"
-	env.Rule = "Math: every function over a pool of IEEE specials (NaN, +-0, +-Infinity, +-1, +-0.5 and neighbours, 2^52..2^53 integers, half-integers, subnormals, extremes), their neighbours and random bit patterns, with 0..6 arguments, also as strings/booleans/null/undefined/objects; pow and atan2 table cells and exact rational powers; valueOf call logs; inverse/identity relations, anchors, monotone pairs; isNaN/isFinite over a ToNumber pool; strings over ASCII (reserved, marks, %), 2/3-byte boundaries, BMP, astral and lone surrogates through chains of encode/decode/escape/unescape; decode/unescape on percent-encodings with ill-formed octet sequences and 1-2 random mutations. non-trivial = distinct case with a special/neighbour argument, an unusual argument count, or a string containing a non-ASCII unit or '%'"
+	env.Rule = "Math: every function over a pool of IEEE specials (NaN, +-0, +-Infinity, +-1, +-0.5 and neighbours, 2^52..2^53 integers, half-integers, subnormals, extremes), their neighbours and random bit patterns, with 0..6 arguments, also as strings/booleans/null/undefined/objects; pow and atan2 table cells and exact rational powers; valueOf call logs; inverse/identity relations, anchors, monotone pairs; isNaN/isFinite over a ToNumber pool; strings over ASCII (reserved, marks, %), 2/3-byte boundaries, BMP, astral and lone surrogates through chains of encode/decode/escape/unescape; decode/unescape on percent-encodings with ill-formed octet sequences and 1-2 random mutations. every function x every boundary in every payload representation (results of |0 >>>0 << ~ >> & ^, lengths, parseInt, literals; Go int/int8..int64/uint..uint64/float32/float64 at their type minima and maxima through vm.Set and vm.Call); non-trivial = distinct case with a special/neighbour argument, an unusual argument count, or a string containing a non-ASCII unit or '%'"
 	g := &gen{env: env, vm: otto.New(), r: env.Rng}
 	r := env.Rng
 	g.pinned()
 	g.sweeps()
 	g.strSweeps()
+	g.payloadSweeps()
 	for env.Count() < env.N {
 		switch k := r.Intn(100); {
+		case k < 4: // payload representations
+			fn := Pick(r, []int{0, 0, 13, 5, 8, 31, 10, 11, 12, 4, 15, 7, 9})
+			n := nominalArity(fn)
+			if fn == 10 || fn == 11 {
+				n = r.Intn(4) + 1
+			}
+			args := make([]parg, n)
+			for i := range args {
+				args[i] = g.randPayload()
+			}
+			g.payloadCase(fn, args, r.Intn(3) == 0)
 		case k < 14: // unary Math
 			fn := Pick(r, unaryFns)
 			n := 1
